@@ -125,13 +125,14 @@ theorem luhn_calc_check_digit_spec (number alphabet : Str)
   mvcgen [Gen.luhn.calc_check_digit, luhn_checksum_spec]
   case vc1 => omega
   case vc2 r hr =>
-    obtain ⟨c, hc, rfl⟩ := hr
+    obtain ⟨c, hc, rfl, _⟩ := hr
     refine ⟨h.1, ?_⟩
     intro d hd
     rcases List.mem_append.mp hd with hd | hd
     · exact h.2 d hd
     · rw [List.mem_singleton.mp hd]; simpa using hc
-  case vc3 => intros; omega
+  all_goals (intros; first | omega | skip)
+  all_goals (rename_i hr; obtain ⟨c, hc, rfl, _⟩ := hr; exact ⟨c, hc, rfl⟩)
 
 /-! ## `iso7064.mod_97_10` -/
 
